@@ -40,6 +40,7 @@ type violationOut struct {
 	Events   []sim.Event   `json:"events,omitempty"`
 	Notes    []string      `json:"notes,omitempty"`
 	Count    int           `json:"count"`
+	Fault    *sim.FaultSpec `json:"fault_at,omitempty"`
 }
 
 type workerOut struct {
@@ -76,8 +77,14 @@ func envU(name string, def uint64) uint64 {
 }
 
 func runOnce(t *testing.T, sc *Scenario, tape *sim.Tape, tier string, keep bool) (*sim.Result, *Ctx) {
+	return runOnceF(t, sc, tape, tier, keep, nil, false)
+}
+
+func runOnceF(t *testing.T, sc *Scenario, tape *sim.Tape, tier string, keep bool, fault *sim.FaultSpec, keepIO bool) (*sim.Result, *Ctx) {
 	opts := sc.Opts
 	opts.KeepTrace = keep
+	opts.FaultAt = fault
+	opts.KeepIO = keepIO
 	var ctx *Ctx
 	res := sim.Execute(t, tape, opts, func(s *sim.Sim) {
 		ctx = &Ctx{S: s, T: tape, Tier: tier}
@@ -112,14 +119,14 @@ func hasSig(res *sim.Result, sig string) *sim.Violation {
 }
 
 // shrink minimises a failing tape while the same signature persists.
-func shrink(t *testing.T, sc *Scenario, tier string, tape []uint32, sig string, budget int) ([]uint32, int) {
+func shrink(t *testing.T, sc *Scenario, tier string, tape []uint32, sig string, budget int, fault *sim.FaultSpec) ([]uint32, int) {
 	execs := 0
 	try := func(cand []uint32) ([]uint32, bool) {
 		if execs >= budget {
 			return nil, false
 		}
 		execs++
-		res, _ := runOnce(t, sc, sim.ReplayTape(cand), tier, false)
+		res, _ := runOnceF(t, sc, sim.ReplayTape(cand), tier, false, fault, false)
 		if hasSig(res, sig) != nil {
 			return res.Tape, true
 		}
@@ -252,11 +259,7 @@ func workerSearch(t *testing.T, sc *Scenario, tier string) {
 	digests := map[uint64]bool{}
 	nontriv := map[uint64]bool{}
 	bySig := map[string]*violationOut{}
-	for run := from; run < to; run++ {
-		sim.WatchdogInfo.Store(fmt.Sprintf("prop=%s seed=%d run=%d", sc.Prop, seed, run))
-		tape := sim.NewTape(seed, run)
-		keep := len(out.Samples) < 2
-		res, _ := runOnce(t, sc, tape, tier, keep)
+	account := func(run uint64, res *sim.Result, keep bool, fault *sim.FaultSpec) {
 		out.Runs++
 		out.Steps += int64(res.Steps)
 		out.SimTimeUs += int64(res.SimTime / time.Microsecond)
@@ -291,7 +294,7 @@ func workerSearch(t *testing.T, sc *Scenario, tier string) {
 			}
 			out.Samples = append(out.Samples, map[string]interface{}{
 				"seed": seed, "run": run, "plan": res.Plan, "steps": res.Steps, "sim_time_ms": res.SimTime.Milliseconds(),
-				"first_events": ev, "violations": len(res.Violations),
+				"first_events": ev, "violations": len(res.Violations), "fault_at": fault,
 			})
 		}
 		for _, v := range res.Violations {
@@ -299,16 +302,16 @@ func workerSearch(t *testing.T, sc *Scenario, tier string) {
 				o.Count++
 				continue
 			}
-			vo := &violationOut{Sig: v.Sig, Msg: v.Msg, Seed: seed, Run: run, Step: v.Step, OrigLen: len(res.Tape), Count: 1}
+			vo := &violationOut{Sig: v.Sig, Msg: v.Msg, Seed: seed, Run: run, Step: v.Step, OrigLen: len(res.Tape), Count: 1, Fault: fault}
 			bySig[v.Sig] = vo
 			out.Violations = append(out.Violations, vo)
-			min, ex := shrink(t, sc, tier, res.Tape, v.Sig, budget)
+			min, ex := shrink(t, sc, tier, res.Tape, v.Sig, budget, fault)
 			vo.ShrinkEx = ex
 			// final: replay the minimised tape three times, keep the trace
 			okN := 0
 			var last *sim.Result
 			for i := 0; i < 3; i++ {
-				r2, _ := runOnce(t, sc, sim.ReplayTape(min), tier, true)
+				r2, _ := runOnceF(t, sc, sim.ReplayTape(min), tier, true, fault, false)
 				if hasSig(r2, v.Sig) != nil {
 					okN++
 					if last == nil || r2.Digest == last.Digest {
@@ -319,7 +322,7 @@ func workerSearch(t *testing.T, sc *Scenario, tier string) {
 			if last == nil {
 				// minimisation lost it (should not happen): fall back to the original tape
 				min = res.Tape
-				last, _ = runOnce(t, sc, sim.ReplayTape(min), tier, true)
+				last, _ = runOnceF(t, sc, sim.ReplayTape(min), tier, true, fault, false)
 			}
 			vo.Tape = min
 			vo.Stable = fmt.Sprintf("%d/3", okN)
@@ -337,6 +340,47 @@ func workerSearch(t *testing.T, sc *Scenario, tier string) {
 			vo.Events = ev
 		}
 		out.Overruns += res.Overrun
+	}
+	for run := from; run < to; run++ {
+		sim.WatchdogInfo.Store(fmt.Sprintf("prop=%s seed=%d run=%d", sc.Prop, seed, run))
+		tape := sim.NewTape(seed, run)
+		keep := len(out.Samples) < 2
+		if sc.Enum == nil {
+			res, _ := runOnce(t, sc, tape, tier, keep)
+			account(run, res, keep, nil)
+		} else {
+			// fault enumeration: pilot, then one run per (I/O point, fault kind)
+			pilot, _ := runOnceF(t, sc, tape, tier, keep, nil, true)
+			account(run, pilot, keep, nil)
+			type pair struct {
+				idx  int
+				kind string
+			}
+			var pairs []pair
+			for i, site := range pilot.IOPoints {
+				for _, k := range sc.Enum.Kinds(site) {
+					pairs = append(pairs, pair{i, k})
+				}
+			}
+			out.Probes["enum.io_points"] += len(pilot.IOPoints)
+			out.Probes["enum.pairs_total"] += len(pairs)
+			max := sc.Enum.MaxPerPilot[tier]
+			stride := 1
+			if max > 0 && len(pairs) > max {
+				stride = (len(pairs) + max - 1) / max
+			}
+			for j := int(run) % stride; j < len(pairs); j += stride {
+				p := pairs[j]
+				f := &sim.FaultSpec{Index: p.idx, Kind: p.kind}
+				sim.WatchdogInfo.Store(fmt.Sprintf("prop=%s seed=%d run=%d fault=%d/%s", sc.Prop, seed, run, p.idx, p.kind))
+				res, _ := runOnceF(t, sc, sim.ReplayTape(pilot.Tape), tier, false, f, false)
+				account(run, res, false, f)
+				out.Probes["enum.pairs_run"]++
+				if !res.FaultFired {
+					out.Probes["enum.fault_not_reached"]++
+				}
+			}
+		}
 		if wall > 0 && time.Since(start) > wall {
 			out.Next = run + 1
 			break
@@ -377,6 +421,7 @@ type replayFile struct {
 	Digest   string      `json:"digest"`
 	Msg      string      `json:"message"`
 	Plan     interface{} `json:"plan"`
+	Fault    *sim.FaultSpec `json:"fault_at,omitempty"`
 }
 
 func workerReplay(t *testing.T, sc *Scenario, tier string) {
@@ -393,7 +438,7 @@ func workerReplay(t *testing.T, sc *Scenario, tier string) {
 	if rf.Tier != "" {
 		tier = rf.Tier
 	}
-	res, _ := runOnce(t, sc, sim.ReplayTape(rf.Tape), tier, true)
+	res, _ := runOnceF(t, sc, sim.ReplayTape(rf.Tape), tier, true, rf.Fault, false)
 	out := map[string]interface{}{
 		"property": sc.Prop, "signature": rf.Sig, "reproduced": hasSig(res, rf.Sig) != nil,
 		"digest": fmt.Sprintf("%016x", res.Digest), "digest_expected": rf.Digest,
